@@ -556,6 +556,7 @@ def run(ctx, chk):
     r2(ctx, chk)
     r3(ctx, chk)
     aware_value_untouched_rule(ctx, chk, "C12.R6")
+    conversion_must_happen_rule(ctx, chk, "C12.R7")
 
 
 
@@ -591,3 +592,34 @@ def aware_value_untouched_rule(ctx, chk, rule):
                text=" ".join(ast.unparse(r).split()))
     chk.ob(rule, "localize_timezone distinguishes aware from naive arguments", aware_seen, "no return is taken on `%s.tzinfo`" % p,
            key={"function": f.key, "construct": "aware test"}, file=f.file, function=f.qual, line=f.node.lineno)
+
+
+
+def conversion_must_happen_rule(ctx, chk, rule):
+    """apply_timezone(dt, name) is the one place that re-expresses an instant in the zone a setting names.  Whatever the value looks like on
+    entry (its own tzname() may spell the same abbreviation for a different offset: Asia/Shanghai calls itself 'CST', the library's CST is
+    -06:00), what it returns must be the result of one of the two converters applied to that name."""
+    f = ctx.ix.func("dateparser.utils:apply_timezone")
+    ps = f.params()
+    g = CFG(f.node)
+    conv = ("apply_dateparser_timezone", "apply_tzdatabase_timezone")
+    rets = [s for s in iter_own_stmts(f.node.body) if isinstance(s, ast.Return)]
+    chk.floor(rule, len(rets), 1, "returns of apply_timezone")
+
+    def is_conv(e):
+        return isinstance(e, ast.Call) and ast.unparse(e.func) in conv and len(e.args) == 2 and ast.unparse(e.args[1]) == ps[1]
+    for r in rets:
+        at = next(iter(g.nodes_of(r)), None)
+        v = r.value
+        ok = is_conv(v)
+        why = "returns `%s`" % (ast.unparse(v) if v is not None else None)
+        if isinstance(v, ast.Name):
+            rd = g.reaching_defs(v.id).get(at, set())
+            bad = [d for d in rd if d == g.entry.id or not (isinstance(g.nodes[d].stmt, ast.Assign) and is_conv(g.nodes[d].stmt.value))]
+            ok = bool(rd) and not bad
+            if bad:
+                why = "`%s` may still be %s" % (v.id, "the argument" if bad[0] == g.entry.id else "`%s`" % " ".join(ast.unparse(g.nodes[bad[0]].stmt).split())[:60])
+        chk.ob(rule, "apply_timezone line %d returns a converter's result for the requested zone" % r.lineno, ok,
+               "%s: the value goes back without having been re-expressed in `%s`, so TIMEZONE / TO_TIMEZONE is silently not applied" % (why, ps[1]),
+               key={"function": f.key, "construct": "return converted"}, file=f.file, function=f.qual, line=r.lineno,
+               text=" ".join(ast.unparse(r).split()))
